@@ -15,6 +15,10 @@ ASSUMPTIONS = [
     "access through unbounded ranges (A:A, 1:1), address lists and sheet-less addresses is judged on the "
     "implementation by the oracle only (the clipping to the used area is openpyxl/excelwrapper code that "
     "is not modelled)",
+    "CSE array formulas, tables / structured references, formulas returning a reference (OFFSET, INDIRECT) and "
+    "the reference cell of an unbounded range are outside the machine: the streams cse-order, table-order, "
+    "reference-order, cse-range and unbounded-history are judged on the implementation alone, the reference "
+    "being the value of the cell evaluated alone by a fresh compiler (from-scratch compile after writes)",
 ]
 
 
@@ -23,8 +27,7 @@ def _degenerate(case):
     return case.get('call') == 'path-degenerate'
 
 
-def run(ctx):
-    ensure_impl_on_path()
+def _stream_dag(ctx):
     from pycel import ExcelCompiler
     rng = ctx.rng
     ctx.extra['rule'] = (
@@ -146,4 +149,662 @@ def run(ctx):
                 if not same(a, b):
                     ctx.divergence(dict(call='order', workbook=desc, order=[wb.nodes[i]['addr'] for i in perm]),
                                    impl_vals, mvals, 'Model/Graph.v evaluate = ExcelCompiler.evaluate')
+                    break
+
+
+def run(ctx):
+    ensure_impl_on_path()
+    _stream_dag(ctx)
+    # oracle-only streams (implementation alone; the reference is the cell evaluated alone in a fresh compiler)
+    for stream in (_stream_cse, _stream_tables, _stream_reference, _stream_cse_overlap, _stream_unbounded_history):
+        try:
+            stream(ctx)
+        except Exception:      # noqa: BLE001
+            import traceback
+            ctx.broke(f"harness: {stream.__name__} failed", traceback.format_exc())
+    ctx.extra['rule'] += (
+        "; plus, on the implementation alone (reference = the cell evaluated alone by a fresh compiler): "
+        "cse-order - CSE array formulas whose precedents are ordinary cells calling IFERROR/IFNA/IFS on ranges, "
+        "every target (cell, array member, exact array, enclosing block, D:D, 1:1) evaluated first and random "
+        "permutations; table-order - 2-3 sheets with tables at the same coordinates and unqualified structured "
+        "references, all/sampled first-evaluation orders and range paths, values also computed from the sheet's "
+        "own table; reference-order - cells whose whole formula returns a reference (OFFSET/INDIRECT) to formula "
+        "cells, sampled permutations, value = the target's; cse-range - sub-rectangles and unbounded rows/columns "
+        "around and across CSE arrays of an in-memory workbook; unbounded-history - SUM/COUNT/MIN/MAX of A:A, "
+        "A:B, r:r, 1:n with set_value on members, every first-evaluation order of the formulas, each value "
+        "compared with a from-scratch compile")
+
+
+# ============================================================================================
+# Grid workbooks: several sheets, plain cells, CSE array formulas, tables.  The streams below
+# are judged on the implementation alone (the graph machine has no CSE arrays, tables,
+# reference-returning formulas or unbounded-range reference cells).  The reference value of a
+# cell is the value a fresh compiler returns when that cell is the ONLY thing evaluated
+# ("solo"); every observation of the cell - any first-evaluation order, any enclosing range,
+# repetition - must be that value.
+# ============================================================================================
+def _col(c):
+    from openpyxl.utils import get_column_letter
+    return get_column_letter(c)
+
+
+def _a(sheet, r, c):
+    return f'{sheet}!{_col(c)}{r}'
+
+
+def _ra(sheet, r1, c1, r2, c2):
+    return f'{sheet}!{_col(c1)}{r1}:{_col(c2)}{r2}'
+
+
+class Grid:
+    def __init__(self):
+        self.sheets = []
+
+    def sheet(self, title):
+        sh = dict(title=title, cells={}, arrays=[], tables=[])
+        self.sheets.append(sh)
+        return sh
+
+    def build(self, inputs=None):
+        import openpyxl
+        from openpyxl.worksheet.formula import ArrayFormula
+        from openpyxl.worksheet.table import Table, TableColumn
+        wb = openpyxl.Workbook()
+        for k, sh in enumerate(self.sheets):
+            ws = wb.active if k == 0 else wb.create_sheet(sh['title'])
+            ws.title = sh['title']
+            for (r, c), v in sh['cells'].items():
+                v = (inputs or {}).get((sh['title'], r, c), v)
+                if v is not None:
+                    ws.cell(row=r, column=c, value=v)
+            for (r1, c1, r2, c2, text) in sh['arrays']:
+                ws.cell(row=r1, column=c1,
+                        value=ArrayFormula(f'{_col(c1)}{r1}:{_col(c2)}{r2}', text))
+            for name, (r1, c1, r2, c2), headers in sh['tables']:
+                ws.add_table(Table(displayName=name, ref=f'{_col(c1)}{r1}:{_col(c2)}{r2}',
+                                   tableColumns=[TableColumn(id=i, name=h)
+                                                 for i, h in enumerate(headers, start=1)]))
+        return wb
+
+    def desc(self, inputs=None):
+        out = []
+        for sh in self.sheets:
+            t = sh['title']
+            for (r, c), v in sorted(sh['cells'].items()):
+                out.append([_a(t, r, c), (inputs or {}).get((t, r, c), v)])
+            for (r1, c1, r2, c2, text) in sh['arrays']:
+                out.append([_ra(t, r1, c1, r2, c2), '{' + text + '}'])
+            for name, rect, headers in sh['tables']:
+                out.append([_ra(t, *rect), f'table {name} {headers}'])
+        return out
+
+    def used(self, title):
+        """(max_row, max_col) of a sheet, as openpyxl reports them."""
+        sh = next(s for s in self.sheets if s['title'] == title)
+        rows = [r for (r, c), v in sh['cells'].items() if v is not None] + [a[2] for a in sh['arrays']]
+        cols = [c for (r, c), v in sh['cells'].items() if v is not None] + [a[3] for a in sh['arrays']]
+        return max(rows), max(cols)
+
+    def arrays(self):
+        return [[sh['title'], r1, c1, r2, c2] for sh in self.sheets for (r1, c1, r2, c2, _) in sh['arrays']]
+
+    def cells(self):
+        """every occupied cell (sheet, r, c): plain cells and members of CSE arrays"""
+        out = []
+        for sh in self.sheets:
+            t = sh['title']
+            out += [(t, r, c) for (r, c), v in sorted(sh['cells'].items()) if v is not None]
+            for (r1, c1, r2, c2, _) in sh['arrays']:
+                out += [(t, r, c) for r in range(r1, r2 + 1) for c in range(c1, c2 + 1)]
+        return out
+
+
+def _cell_target(cell):
+    t, r, c = cell
+    return dict(addr=_a(t, r, c), sheet=t, rect=(r, c, r, c))
+
+
+def _range_target(sheet, r1, c1, r2, c2, addr=None):
+    return dict(addr=addr or _ra(sheet, r1, c1, r2, c2), sheet=sheet, rect=(r1, c1, r2, c2))
+
+
+def _row_target(grid, sheet, r):
+    return dict(addr=f'{sheet}!{r}:{r}', sheet=sheet, rect=(r, 1, r, grid.used(sheet)[1]), open='row')
+
+
+def _col_target(grid, sheet, c):
+    return dict(addr=f'{sheet}!{_col(c)}:{_col(c)}', sheet=sheet, rect=(1, c, grid.used(sheet)[0], c), open='col')
+
+
+def _rect_values(val, nr, nc):
+    """The result of evaluate() for an nr x nc range as {(dr, dc): value}
+    (evaluate drops dimensions of size one); None when the shape is not the range's."""
+    if nr == 1 and nc == 1:
+        return {(0, 0): val}
+    if nr == 1 or nc == 1:
+        n = max(nr, nc)
+        if not isinstance(val, tuple) or len(val) != n:
+            return None
+        return {((i, 0) if nc == 1 else (0, i)): v for i, v in enumerate(val)}
+    if not isinstance(val, tuple) or len(val) != nr or any(
+            not isinstance(row, tuple) or len(row) != nc for row in val):
+        return None
+    return {(i, j): v for i, row in enumerate(val) for j, v in enumerate(row)}
+
+
+class _Shape(Exception):
+    pass
+
+
+def _look(comp, target, seen):
+    r1, c1, r2, c2 = target['rect']
+    val = canon(comp.evaluate(target['addr']))
+    if target.get('open'):
+        # an unbounded row/column: its extent is whatever the wrapper clips it to (an in-memory
+        # openpyxl sheet grows when a formula touches a cell outside the used area), each element
+        # is judged as the cell at its position (a cell nobody filled is blank: None)
+        flat = val if isinstance(val, tuple) else (val,)
+        if any(isinstance(v, tuple) for v in flat):
+            raise _Shape(f"evaluate({target['addr']}) is not one row/column: {val!r}"[:160])
+        r2, c2 = (r1, c1 + len(flat) - 1) if target['open'] == 'row' else (r1 + len(flat) - 1, c1)
+    vals = _rect_values(val, r2 - r1 + 1, c2 - c1 + 1)
+    if vals is None:
+        raise _Shape(f"evaluate({target['addr']}) has not the shape of the range: {val!r}"[:160])
+    for (dr, dc), v in vals.items():
+        seen.setdefault((target['sheet'], r1 + dr, c1 + dc), []).append(v)
+
+
+def _observe(ExcelCompiler, grid, order, inputs=None):
+    """Fresh compiler, the targets evaluated in the given order, then each once more.
+    {cell: [every value observed for it]}"""
+    comp = ExcelCompiler(excel=grid.build(inputs))
+    seen = {}
+    for t in order:
+        _look(comp, t, seen)
+    for t in order:
+        _look(comp, t, seen)
+    return seen
+
+
+def _solo(ctx, ExcelCompiler, stream, grid, cells, inputs=None):
+    """{cell: value when it is the only thing a fresh compiler evaluates}; None after a raise."""
+    out = {}
+    for cell in cells:
+        try:
+            out[cell] = canon(ExcelCompiler(excel=grid.build(inputs)).evaluate(_a(*cell)))
+        except Exception as exc:      # noqa: BLE001
+            ctx.violation(dict(call=stream, workbook=grid.desc(inputs), args=[_a(*cell)],
+                               error=type(exc).__name__),
+                          f"evaluate({_a(*cell)}) alone raises {type(exc).__name__}: {exc}"[:200])
+            return None
+    return out
+
+
+def _judge(ctx, stream, key, grid, order, seen, solo, inputs=None, extra=None):
+    """every observation equals the solo value (cells outside `solo` are blank: None)"""
+    bad = sorted(cell for cell, vals in seen.items() if any(v != solo.get(cell) for v in vals))
+    ctx.count((stream,) + key, kind=stream)
+    if bad:
+        case = dict(call=stream, workbook=grid.desc(inputs), order=[t['addr'] for t in order])
+        case.update(extra or {})
+        ctx.violation(case, f"value of {[_a(*c) for c in bad]} depends on the first-evaluation order / "
+                            f"access path (differs from the value of the cell evaluated alone)",
+                      impl={_a(*c): seen[c] for c in bad}, expected={_a(*c): solo.get(c) for c in bad})
+    return not bad
+
+
+def _orders(rng, singles, ranges, nrandom, exhaustive_upto=4):
+    """First-evaluation orders: every target first (followed by the single cells in a random
+    order), plus random permutations of all targets; exhaustive over the single cells when
+    there are few of them."""
+    out = []
+    if len(singles) <= exhaustive_upto:
+        out += [list(p) for p in itertools.permutations(singles)]
+    for first in ranges + singles:
+        rest = [t for t in singles if t is not first]
+        rng.shuffle(rest)
+        out.append([first] + rest)
+    every = singles + ranges
+    for _ in range(nrandom):
+        out.append(rng.sample(every, len(every)))
+    return out
+
+
+def _run_orders(ctx, ExcelCompiler, stream, k, grid, singles, ranges, nrandom, extra_check=None):
+    solo = _solo(ctx, ExcelCompiler, stream, grid, grid.cells())
+    if solo is None:
+        return None
+    for oi, order in enumerate(_orders(ctx.rng, singles, ranges, nrandom)):
+        try:
+            seen = _observe(ExcelCompiler, grid, order)
+        except Exception as exc:      # noqa: BLE001
+            ctx.violation(dict(call=stream, workbook=grid.desc(), order=[t['addr'] for t in order],
+                               error=type(exc).__name__),
+                          f"evaluate raises {type(exc).__name__}: {exc}"[:200])
+            continue
+        _judge(ctx, stream, (k, oi), grid, order, seen, solo)
+    return solo
+
+
+# -------------------------------------------------------------------------------- T1: CSE arrays
+CSE_DATA = [0, 1, 2, 3, 5, -4, 10, '#N/A', '#DIV/0!', 'abc']
+
+
+def _gen_cse(rng):
+    """Column B: data (numbers, text, error values).  Column C: ORDINARY cells calling the
+    functions that behave differently inside an array formula (IFERROR, IFNA, IFS) on a range.
+    Columns D.. : CSE array formulas whose precedents are those ordinary cells.  G1: an
+    ordinary cell over the array."""
+    g = Grid()
+    s = g.sheet(wbgen.SHEET)
+    n = rng.choice([2, 2, 3])
+    for r in range(1, n + 1):
+        s['cells'][(r, 2)] = rng.choice(CSE_DATA)
+    B = f'B1:B{n}'
+
+    def lit():
+        return rng.choice(['-1', '7', '100', '"x"', '0'])
+
+    def aware(prev):
+        p = prev or lit()
+        return rng.choice([
+            f'=IFERROR({B},{lit()})', f'=IFNA({B},{lit()})', f'=IFS({B},{lit()},TRUE,{lit()})',
+            f'=SUM(IFERROR({B},{lit()}))', f'=IFERROR({B}/B1,{lit()})', f'=IFERROR(IFNA({B},{lit()}),{lit()})',
+            f'=IFERROR({B},{p})', f'=IFNA({B},{lit()})&{p}', f'=IFS(ISERROR({B}),{lit()},TRUE,{p})',
+            f'=IFERROR({B},{lit()})', f'=COUNT({B})', f'=B1'])
+    nc = rng.choice([1, 2, 2])
+    prev = None
+    for r in range(1, nc + 1):
+        s['cells'][(r, 3)] = aware(prev)
+        prev = f'C{r}'
+    ck = f'C{rng.randrange(1, nc + 1)}'
+    s['arrays'].append((1, 4, n, 4, rng.choice([
+        f'={B}+{ck}', f'={B}&{ck}', f'=IFERROR({B},{ck})', f'=IF(ISNUMBER({B}),{B}*2,{ck})',
+        f'={ck}', f'=IFNA({B},C1)', f'=C1:C{nc}', f'={ck}+ROW({B})'])))
+    if rng.random() < 0.5:
+        w = rng.choice([1, 1, 2])
+        s['arrays'].append((1, 5, n, 4 + w, rng.choice([
+            f'=D1:D{n}&{ck}', f'=IFERROR({B},{lit()})', f'=IFS(ISERROR({B}),{ck},TRUE,{B})', f'={ck}'])))
+    if rng.random() < 0.6:
+        s['cells'][(1, 7)] = rng.choice([f'=COUNT(D1:D{n})', f'=D{n}', f'=IFERROR(D1:D{n},{ck})',
+                                         f'=INDEX(D1:D{n},2)', f'=IFNA(D1:D{n},-1)&C1'])
+    return g
+
+
+def _stream_cse(ctx):
+    from pycel import ExcelCompiler
+    rng = ctx.rng
+    for k in range(ctx.n(16, 160)):
+        g = _gen_cse(rng)
+        t = wbgen.SHEET
+        singles = [_cell_target(c) for c in g.cells()]
+        maxr, maxc = g.used(t)
+        ranges = [_range_target(t, *a[1:]) for a in g.arrays()]                 # exactly the arrays
+        ranges.append(_range_target(t, 1, 2, maxr, maxc))                        # the whole block, from B1
+        ranges.append(_range_target(t, 1, 3, maxr, 4))                           # C1:Dn: ordinary cells + array
+        ranges.append(_col_target(g, t, 4))                                      # D:D clips to exactly the array
+        ranges.append(_row_target(g, t, 1))                                      # 1:1 starts on the blank A1
+        _run_orders(ctx, ExcelCompiler, 'cse-order', k, g, singles, ranges, ctx.n(8, 24))
+
+
+# ---------------------------------------------------------------------------------- T2: tables
+TABLE_NAMES = ['Prices', 'Costs', 'Stock']
+
+
+def _gen_tables(rng):
+    """Two or three sheets, each with a table at the SAME coordinates (same headers, data of
+    another magnitude); the last column(s) hold formulas with unqualified structured
+    references ([@col], [col], [[#This Row],[col]], ...) - the table is found from the cell.
+    Returns (grid, {cell: value computed here from the sheet's own data})."""
+    g = Grid()
+    nsheets = rng.choice([2, 2, 3])
+    nrows = rng.choice([2, 2, 3])
+    r0, c0 = rng.choice([(1, 1), (1, 1), (2, 2), (3, 1)])
+    nform = rng.choice([1, 1, 2])
+    headers = ['item', 'qty', 'price'] + ['total', 'extra'][:nform]
+    same = rng.random() < 0.7
+
+    def templates():
+        return rng.choice([
+            ('=[@qty]*2', lambda row, col: row['qty'] * 2),
+            ('=[@qty]+[@price]', lambda row, col: row['qty'] + row['price']),
+            ('=SUM([qty])', lambda row, col: sum(col['qty'])),
+            ('=[@[qty]]*3', lambda row, col: row['qty'] * 3),
+            ('=[[#This Row],[price]]+1', lambda row, col: row['price'] + 1),
+            ('=SUM([[#Data],[price]])', lambda row, col: sum(col['price'])),
+            ('=[@price]&[@item]', lambda row, col: f"{row['price']}{row['item']}"),
+            ('=SUM([[qty]:[price]])', lambda row, col: sum(col['qty']) + sum(col['price'])),
+            ('=INDEX([price],1)', lambda row, col: col['price'][0]),
+            ('=MAX([qty])-[@qty]', lambda row, col: max(col['qty']) - row['qty']),
+        ])
+    shared = [templates() for _ in range(nform)]
+    expected = {}
+    for k in range(nsheets):
+        title = f'S{k + 1}'
+        s = g.sheet(title)
+        scale = 100 ** k
+        rows = [dict(item=rng.choice('abcdef'), qty=rng.randrange(1, 10) * scale,
+                     price=rng.randrange(11, 50) * scale) for _ in range(nrows)]
+        col = {h: [row[h] for row in rows] for h in ('item', 'qty', 'price')}
+        for j, h in enumerate(headers):
+            s['cells'][(r0, c0 + j)] = h
+        forms = shared if same else [templates() for _ in range(nform)]
+        for i, row in enumerate(rows, start=1):
+            for j, h in enumerate(('item', 'qty', 'price')):
+                s['cells'][(r0 + i, c0 + j)] = row[h]
+            for j, (text, fn) in enumerate(forms):
+                s['cells'][(r0 + i, c0 + 3 + j)] = text
+                expected[(title, r0 + i, c0 + 3 + j)] = fn(row, col)
+        s['tables'].append((TABLE_NAMES[k], (r0, c0, r0 + nrows, c0 + len(headers) - 1), headers))
+        # a table-qualified reference next to the table (same coordinates on every sheet)
+        s['cells'][(r0 + 1, c0 + len(headers) + 1)] = f'=SUM({TABLE_NAMES[k]}[qty])'
+        expected[(title, r0 + 1, c0 + len(headers) + 1)] = sum(col['qty'])
+    return g, expected
+
+
+def _stream_tables(ctx):
+    from pycel import ExcelCompiler
+    rng = ctx.rng
+    for k in range(ctx.n(12, 120)):
+        g, expected = _gen_tables(rng)
+        singles = [_cell_target(c) for c in sorted(expected)]
+        ranges = []
+        for sh in g.sheets:
+            t = sh['title']
+            name, (r1, c1, r2, c2), headers = sh['tables'][0]
+            maxr, maxc = g.used(t)
+            ranges.append(_range_target(t, r1, c1, r2, c2))                          # the table
+            ranges.append(_range_target(t, r1 + 1, c1 + 3, r2, c1 + 3))              # first formula column
+            ranges.append(_col_target(g, t, c1 + 3))
+            ranges.append(_row_target(g, t, r1 + 1))
+        # the sheet-less form reads the active (first) sheet
+        first = g.sheets[0]['title']
+        cell = rng.choice(sorted(c for c in expected if c[0] == first))
+        ranges.append(dict(addr=f'{_col(cell[2])}{cell[1]}', sheet=first, rect=(cell[1], cell[2]) * 2))
+        solo = _run_orders(ctx, ExcelCompiler, 'table-order', k, g, singles, ranges, ctx.n(10, 30))
+        if solo is None:
+            continue
+        wrong = sorted(c for c in expected if solo[c] != canon(expected[c]))
+        if wrong:
+            ctx.violation(dict(call='table-order', workbook=g.desc(), args=[_a(*c) for c in wrong]),
+                          "a structured reference without table name does not read the table that contains "
+                          "the cell (value computed from the sheet's own table differs)",
+                          impl={_a(*c): solo[c] for c in wrong}, expected={_a(*c): expected[c] for c in wrong})
+
+
+# ------------------------------------------------------------- T3: formulas that return a reference
+def _gen_reference(rng):
+    """Column B: a number, then FORMULA cells.  Column A: cells whose whole formula evaluates
+    to a reference (OFFSET / INDIRECT) to a cell of column B or to another such cell.
+    Returns (grid, {reference cell: the cell it stands for})."""
+    g = Grid()
+    t = wbgen.SHEET
+    s = g.sheet(t)
+    nb = rng.choice([3, 3, 4])
+    s['cells'][(1, 2)] = rng.choice([1, 2, 5, -3, 10])
+    for r in range(2, nb + 1):
+        p = rng.randrange(1, r)
+        s['cells'][(r, 2)] = rng.choice([f'=B{p}+{rng.randrange(1, 20)}', f'=B{p}*{rng.randrange(2, 5)}',
+                                         f'=B{p}&"z"', f'=SUM(B1:B{r - 1})', f'=-B{r - 1}'])
+    stands = {}
+    na = rng.choice([2, 3])
+    for r in range(1, na + 1):
+        tr = rng.randrange(2, nb + 1)
+        pure = [f'=OFFSET(B1,{tr - 1},0)', f'=OFFSET(B{tr},0,0)', f'=OFFSET(C{tr},0,-1)',
+                f'=INDIRECT("B"&{tr})', f'=INDIRECT("B{tr}")', f'=INDIRECT("{t}!B"&{tr})',
+                f'=OFFSET(B{nb},{tr - nb},0)', f'=OFFSET(B1:B{nb},{tr - 1},0,1,1)',
+                f'=OFFSET(INDIRECT("B1"),{tr - 1},0)']
+        kind = rng.random()
+        if kind < 0.7 or r == 1:
+            s['cells'][(r, 1)] = rng.choice(pure)
+            stands[(t, r, 1)] = (t, tr, 2)
+        elif kind < 0.85:
+            s['cells'][(r, 1)] = rng.choice([f'=OFFSET(A{r - 1},0,0)', f'=INDIRECT("A{r - 1}")',
+                                             f'=OFFSET(B{r - 1},0,-1)'])
+            stands[(t, r, 1)] = (t, r - 1, 1)
+        else:
+            s['cells'][(r, 1)] = rng.choice([f'=OFFSET(B1,{tr - 1},0)&""', f'=SUM(OFFSET(B1,0,0,{tr},1))',
+                                             f'=IF(TRUE,OFFSET(B1,{tr - 1},0),0)'])
+    return g, stands
+
+
+def _stream_reference(ctx):
+    from pycel import ExcelCompiler
+    rng = ctx.rng
+    for k in range(ctx.n(14, 140)):
+        g, stands = _gen_reference(rng)
+        t = wbgen.SHEET
+        singles = [_cell_target(c) for c in g.cells()]
+        maxr, maxc = g.used(t)
+        ranges = [_range_target(t, 1, 1, maxr, 2), _range_target(t, 1, 1, maxr, 1),
+                  _col_target(g, t, 1), _row_target(g, t, 2)]
+        solo = _run_orders(ctx, ExcelCompiler, 'reference-order', k, g, singles, ranges, ctx.n(24, 80))
+        if solo is None:
+            continue
+        wrong = sorted(c for c, target in stands.items() if solo[c] != solo[target])
+        if wrong:
+            ctx.violation(dict(call='reference-order', workbook=g.desc(), args=[_a(*c) for c in wrong]),
+                          "a cell whose formula returns a reference has not the value of the cell referred to "
+                          "(both evaluated alone)",
+                          impl={_a(*c): solo[c] for c in wrong},
+                          expected={_a(*c): solo[stands[c]] for c in wrong})
+
+
+# ------------------------------------------------ T4: ranges around / across CSE arrays (in-memory workbook)
+def _cse_text_match(anchor, other, i, j):
+    """excelwrapper._OpxRange.__new__ recognises 'the same array' by comparing the text of the
+    expanded member formulas: member (i, j) of `other` passes the test made for `anchor`."""
+    def member(a, i, j):
+        r1, c1, r2, c2, text = a
+        return f'=CSE_INDEX({text[1:]},{i},{j},{r2 - r1 + 1},{c2 - c1 + 1})'
+    front = member(anchor, 1, 1)[:-1].rsplit(',', 4)[0]
+    return member(other, i, j).startswith(front)
+
+
+@known_predicate('C05-range-overlapping-cse-array')
+def _cse_overlap_known(case):
+    """In-memory workbook, a range whose top-left cell belongs to a CSE array and which is not
+    a piece of that array anchored at the array's top-left:
+      * TypeError / AttributeError (the range gets formula None or a number meets .startswith), or
+      * wrong values, when the range starts at the array's top-left and every other cell of it is a
+        member of an array whose formula text passes the prefix test (the first array's formula is
+        then stretched over the whole range)."""
+    if case.get('call') != 'cse-range' or case.get('wrapper') != 'in-memory':
+        return False
+    sheet, r1, c1, r2, c2 = case['rect']
+    arrays = [a[1:] for a in case['arrays'] if a[0] == sheet]
+    anchor = next((a for a in arrays if a[0] <= r1 <= a[2] and a[1] <= c1 <= a[3]), None)
+    if anchor is None:
+        return False                        # the range starts outside every array
+    at_top_left = (r1, c1) == (anchor[0], anchor[1])
+    if at_top_left and r2 <= anchor[2] and c2 <= anchor[3]:
+        return False                        # exactly the array, or a piece anchored at its top-left
+    if case.get('error') in ('TypeError', 'AttributeError'):
+        return True
+    if case.get('error') == 'value' and at_top_left:
+        for r in range(r1, r2 + 1):
+            for c in range(c1, c2 + 1):
+                a = next((a for a in arrays if a[0] <= r <= a[2] and a[1] <= c <= a[3]), None)
+                if a is None or not _cse_text_match(anchor, a, r - a[0] + 1, c - a[1] + 1):
+                    return False
+        return True
+    return False
+
+
+def _gen_cse_overlap(rng):
+    """Region A1:E5 with two or three CSE arrays (some adjacent, some with the same or a
+    prefix-sharing formula text) and neighbours that are blank, numbers, text or ordinary
+    formulas; the arrays read the data block H1:I3."""
+    g = Grid()
+    s = g.sheet(wbgen.SHEET)
+    for r in range(1, 4):
+        s['cells'][(r, 8)] = rng.choice([1, 2, 3, 5, 7]) * r
+        s['cells'][(r, 9)] = rng.choice([10, 20, 30]) * r
+    taken = set()
+
+    def text_for(h, w):
+        src = f'H1:H{h}' if w == 1 else (f'H1:I{h}' if w == 2 else f'H1:I{h}')
+        return f'={src}{rng.choice(["*2", "+1", "+5", "*3"])}'
+
+    def free(r1, c1, h, w):
+        cells = {(r, c) for r in range(r1, r1 + h) for c in range(c1, c1 + w)}
+        return r1 >= 1 and c1 >= 1 and r1 + h - 1 <= 5 and c1 + w - 1 <= 5 and not (cells & taken)
+    last = None
+    for _ in range(rng.choice([2, 3, 3])):
+        h, w = rng.choice([(2, 1), (1, 2), (2, 2), (3, 1), (2, 1), (1, 2)])
+        spots = [(r, c) for r in range(1, 6) for c in range(1, 6) if free(r, c, h, w)]
+        text = text_for(h, w)
+        if last is not None and rng.random() < 0.6:
+            # directly below / right of the previous array, often with its text (or an extension of it)
+            lr1, lc1, lr2, lc2, ltext = last
+            near = [(r, c) for (r, c) in ((lr2 + 1, lc1), (lr1, lc2 + 1)) if free(r, c, h, w)]
+            if near:
+                spots = near
+                text = rng.choice([ltext, ltext, ltext + '0', text])
+        if not spots:
+            continue
+        r1, c1 = rng.choice(spots)
+        last = (r1, c1, r1 + h - 1, c1 + w - 1, text)
+        s['arrays'].append(last)
+        taken |= {(r, c) for r in range(r1, r1 + h) for c in range(c1, c1 + w)}
+    for r in range(1, 6):
+        for c in range(1, 6):
+            if (r, c) not in taken and rng.random() < 0.3:
+                s['cells'][(r, c)] = rng.choice([4, 9, 'txt', '=H1+1', '=SUM(H1:H3)', 0])
+    return g
+
+
+def _stream_cse_overlap(ctx):
+    from pycel import ExcelCompiler
+    rng = ctx.rng
+    t = wbgen.SHEET
+    for k in range(ctx.n(14, 140)):
+        g = _gen_cse_overlap(rng)
+        arrays = [[a[0], a[1], a[2], a[3], a[4], text] for a, (_, _, _, _, text) in
+                  zip(g.arrays(), g.sheets[0]['arrays'])]
+        members = {(r, c) for (_, r1, c1, r2, c2, _) in arrays for r in range(r1, r2 + 1) for c in range(c1, c2 + 1)}
+        solo = _solo(ctx, ExcelCompiler, 'cse-range', g, g.cells())
+        if solo is None:
+            continue
+        maxr, maxc = g.used(t)
+        rects = [(r1, c1, r2, c2) for r1 in range(1, 7) for r2 in range(r1, 7)
+                 for c1 in range(1, 7) for c2 in range(c1, 7)
+                 if (r2, c2) != (r1, c1) and any(r1 <= r <= r2 and c1 <= c <= c2 for (r, c) in members)]
+        inside = [x for x in rects if (x[0], x[1]) in members]       # top-left cell belongs to an array
+        outside = [x for x in rects if (x[0], x[1]) not in members]
+        nin = ctx.n(16, 60)
+        chosen = rng.sample(inside, min(nin, len(inside))) + rng.sample(outside, min(nin, len(outside)))
+        targets = [_range_target(t, *x) for x in chosen]
+        for (_, r1, c1, r2, c2, _) in arrays:
+            targets.append(_col_target(g, t, c1))
+            targets.append(_row_target(g, t, r1))
+        for ti, target in enumerate(targets):
+            r1, c1, r2, c2 = target['rect']
+            cells = [_cell_target((t, r, c)) for r in range(r1, r2 + 1) for c in range(c1, c2 + 1)
+                     if (t, r, c) in solo]
+            order = ([target] + cells) if ti % 2 == 0 else (cells + [target])
+            case = dict(call='cse-range', wrapper='in-memory', workbook=g.desc(), args=[target['addr']],
+                        order=[x['addr'] for x in order], rect=[t, r1, c1, r2, c2], arrays=arrays)
+            try:
+                seen = _observe(ExcelCompiler, g, order)
+            except Exception as exc:      # noqa: BLE001
+                ctx.count(('cse-range', k, ti), kind='cse-range-' + ('inside' if (r1, c1) in members else 'outside'))
+                ctx.violation(dict(case, error=type(exc).__name__),
+                              f"evaluate({target['addr']}) raises {type(exc).__name__}: {exc}"[:200])
+                continue
+            bad = sorted(c for c, vals in seen.items() if any(v != solo.get(c) for v in vals))
+            ctx.count(('cse-range', k, ti), kind='cse-range-' + ('inside' if (r1, c1) in members else 'outside'))
+            if bad:
+                ctx.violation(dict(case, error='value'),
+                              f"elements {[_a(*c) for c in bad]} of {target['addr']} differ from the cells' own values",
+                              impl={_a(*c): seen[c] for c in bad}, expected={_a(*c): solo.get(c) for c in bad})
+
+
+# ------------------------------------- T5: unbounded row/column ranges as formula arguments, with writes
+UNB_POOL = [0, 1, 2, 3, 5, 7, -4, 10, 12, 100]
+
+
+def _gen_unbounded(rng):
+    """Columns A, B rows 1..n hold only data; the formulas sit in column D below row n and
+    aggregate whole columns (A:A, B:B, A:B) and whole rows (r:r, r <= n, data only)."""
+    g = Grid()
+    s = g.sheet(wbgen.SHEET)
+    n = rng.choice([2, 3, 4])
+    for r in range(1, n + 1):
+        s['cells'][(r, 1)] = rng.choice(UNB_POOL)
+        s['cells'][(r, 2)] = rng.choice(UNB_POOL + ['text'])
+    refs = ['A:A', 'A:A', 'B:B', 'A:B'] + [f'{r}:{r}' for r in range(1, n + 1)] + [f'1:{n}']
+    nf = rng.choice([2, 3])
+    used = []
+    for i in range(nf):
+        ref = rng.choice(refs)
+        used.append(ref)
+        text = f'={rng.choice(["SUM", "COUNT", "MIN", "MAX"])}({ref})'
+        if i and rng.random() < 0.4:
+            text += f'+D{n + i}'
+        s['cells'][(n + 1 + i, 4)] = text
+    return g, n, nf, sorted(set(used))
+
+
+def _stream_unbounded_history(ctx):
+    from pycel import ExcelCompiler
+    rng = ctx.rng
+    t = wbgen.SHEET
+    for k in range(ctx.n(12, 120)):
+        g, n, nf, refs = _gen_unbounded(rng)
+        formulas = [(t, n + 1 + i, 4) for i in range(nf)]
+        data = [(t, r, c) for r in range(1, n + 1) for c in (1, 2)]
+        scratch_memo = {}
+
+        def scratch(inputs):
+            key = tuple(sorted(inputs.items(), key=repr))
+            if key not in scratch_memo:
+                comp = ExcelCompiler(excel=g.build(inputs))
+                scratch_memo[key] = {c: canon(comp.evaluate(_a(*c))) for c in formulas + data}
+            return scratch_memo[key]
+        perms = list(itertools.permutations(formulas))
+        for pi, perm in enumerate(perms):
+            inputs, history = {}, []
+            comp = ExcelCompiler(excel=g.build())
+            case = dict(call='unbounded-history', workbook=g.desc(), args=[f'{t}!{x}' for x in refs], history=history)
+            ok = True
+            for step in range(ctx.n(3, 5)):
+                if step:
+                    known = [c for c in data if _a(*c) in comp.cell_map]
+                    if not known:
+                        break
+                    for cell in rng.sample(known, min(len(known), rng.choice([1, 1, 2]))):
+                        old = inputs.get(cell, g.sheets[0]['cells'][cell[1:]])
+                        v = rng.choice([x for x in UNB_POOL + [None, 'w'] if x != old or type(x) is not type(old)])
+                        history.append(['set_value', _a(*cell), v])
+                        try:
+                            comp.set_value(_a(*cell), v)
+                        except Exception as exc:      # noqa: BLE001
+                            ctx.violation(dict(case, history=list(history), error=type(exc).__name__),
+                                          f"set_value raises {type(exc).__name__}: {exc}"[:200])
+                            ok = False
+                            break
+                        inputs[cell] = v
+                    if not ok:
+                        break
+                want = scratch(inputs)
+                order = list(perm) if step == 0 else rng.sample(formulas + data, nf + len(data))
+                if step and rng.random() < 0.5:
+                    order = order[:rng.randrange(1, len(order) + 1)]      # leave some cells stale for later
+                got = {}
+                try:
+                    for cell in order:
+                        history.append(['evaluate', _a(*cell)])
+                        got[cell] = canon(comp.evaluate(_a(*cell)))
+                except Exception as exc:      # noqa: BLE001
+                    ctx.violation(dict(case, history=list(history), error=type(exc).__name__),
+                                  f"evaluate raises {type(exc).__name__}: {exc}"[:200])
+                    break
+                ctx.count(('unbounded-history', k, pi, step), kind='unbounded-history')
+                bad = sorted(c for c in got if got[c] != want[c])
+                if bad:
+                    ctx.violation(dict(case, history=list(history)),
+                                  f"after the history the value of {[_a(*c) for c in bad]} differs from a from-scratch "
+                                  f"compile of the workbook with the values written",
+                                  impl={_a(*c): got[c] for c in bad}, expected={_a(*c): want[c] for c in bad})
                     break
